@@ -40,6 +40,8 @@ use super::{ Follower, Error };
 pub fn walk<F: Follower>(
     graph: Vec<Atom>, follower: &mut F
 ) -> Result<(), Error> {
+    validate(&graph)?;
+
     let size = graph.len();
     let ids = 0..size;
     let mut atoms = graph.into_iter().enumerate().collect::<HashMap<_,_>>();
@@ -52,6 +54,49 @@ pub fn walk<F: Follower>(
         };
 
         walk_root(id, root, size, &mut atoms, follower, &mut pool)?;
+    }
+
+    Ok(())
+}
+
+// Every bond must have exactly one compatible counterpart, including
+// bonds that the traversal will only meet as ring closures.
+fn validate(graph: &[Atom]) -> Result<(), Error> {
+    let size = graph.len();
+
+    for (sid, atom) in graph.iter().enumerate() {
+        for bond in atom.bonds.iter() {
+            if bond.tid >= size {
+                return Err(Error::UnknownTarget(sid, bond.tid))
+            } else if bond.tid == sid {
+                return Err(Error::Loop(sid))
+            }
+
+            let mut back = None;
+
+            for out in graph[bond.tid].bonds.iter() {
+                if out.tid == sid {
+                    if back.is_none() {
+                        back = Some(out)
+                    } else {
+                        return Err(Error::DuplicateBond(sid, bond.tid))
+                    }
+                }
+            }
+
+            match back {
+                Some(back) => {
+                    if bond.is_directional() {
+                        if bond.kind != back.kind.reverse() {
+                            return Err(Error::IncompatibleBond(bond.tid, sid))
+                        }
+                    } else if bond.kind != back.kind {
+                        return Err(Error::IncompatibleBond(bond.tid, sid))
+                    }
+                },
+                None => return Err(Error::HalfBond(sid, bond.tid))
+            }
+        }
     }
 
     Ok(())
